@@ -141,7 +141,10 @@ func (d *Data) initFieldTimes(mdb *memdb) {
 		for field := range neuronjson {
 			if strings.HasSuffix(field, "_time") {
 				rootField := field[:len(field)-5]
-				timestamp := neuronjson[field].(string)
+				timestamp, ok := neuronjson[field].(string)
+				if !ok {
+					continue // a caller-supplied <field>_time of another JSON type
+				}
 				if _, found := mdb.fieldTimes[rootField]; !found {
 					mdb.fieldTimes[rootField] = timestamp
 				} else {
